@@ -146,6 +146,40 @@ class Runtime:
                 exec(compile(m["src"], fname, "exec"), mod.__dict__)  # noqa: S102
                 self.long[("scriptmodel", h)] = mod
             return getattr(self.long[("scriptmodel", h)], m["fn"]).to_model_proto()
+        if m["pool"] == "compose":
+            # several small models side by side in one graph (values prefixed per part): several independent matches of the
+            # same rule, different rules in one traversal, several outputs, duplicated initializers
+            import onnx
+            import onnx_ir as ir
+
+            parts = [ir.serde.serialize_model(ir.from_onnx_text(t)) for t in m["texts"]]
+            out = onnx.ModelProto()
+            out.CopyFrom(parts[0])
+            del out.graph.node[:], out.graph.input[:], out.graph.output[:], out.graph.initializer[:], out.graph.value_info[:]
+            out.graph.name = "composed"
+            for k, part in enumerate(parts):
+                pre = f"p{k}_"
+                g = part.graph
+                for coll in (g.input, g.output, g.value_info):
+                    for vi in coll:
+                        vi.name = pre + vi.name
+                for t in g.initializer:
+                    t.name = pre + t.name
+                for n in g.node:
+                    for i, nm in enumerate(n.input):
+                        if nm:
+                            n.input[i] = pre + nm
+                    for i, nm in enumerate(n.output):
+                        if nm:
+                            n.output[i] = pre + nm
+                    if n.name:
+                        n.name = pre + n.name
+                out.graph.node.extend(g.node)
+                out.graph.input.extend(g.input)
+                out.graph.output.extend(g.output)
+                out.graph.initializer.extend(g.initializer)
+                out.graph.value_info.extend(g.value_info)
+            return out
         if m["pool"] == "text":
             import onnx_ir as ir
 
